@@ -12,12 +12,12 @@ def run(chk, args):
                        "random histories of the real object for n<=6"]
     q = chk.tier == "quick"
     mc_bounds(chk, "ANY3", N=3, cls="ANY", sing="m1to1", slacks="0to2", computers={"sa", "sac", "sam"}, reps={0, 1, 2}, maxchg=2 if q else 3,
-              allow_reset=True, tight=False, edges=False, invariants=INV, timeout=3000)
+              allow_reset=True, tight=False, edges=False, invariants=INV, timeout=5400)
     if not q:
         mc_bounds(chk, "SA3", N=3, cls="SA", sing="m1to1", slacks="0to2", computers={"sa", "sac", "sam"}, reps={0, 1, 2}, maxchg=3,
-                  allow_reset=True, tight=False, edges=False, invariants=INV, timeout=3000)
+                  allow_reset=True, tight=False, edges=False, invariants=INV, timeout=5400)
         mc_bounds(chk, "SA4s", N=4, cls="SA", sing="m1and1", slacks="zero", computers={"sa", "sac", "sam"}, reps={0, 2}, maxchg=2,
-                  allow_reset=False, tight=False, edges=False, invariants=INV, timeout=3400)
+                  allow_reset=False, tight=False, edges=False, invariants=INV, timeout=5400)
     validate_bounds_traces(chk, [
         {"family": "any", "ns": "2,3,4,5" if q else "2,3,4,5,6", "count": 25 if q else 150, "length": 16 if q else 24},
         {"family": "sa", "ns": "3,4,5", "count": 15 if q else 100, "length": 16},
